@@ -20,7 +20,7 @@ func verifIsDigit(c byte) bool { return c >= '0' && c <= '9' }
 
 // C14: FIXInt.Read accepts exactly -?[0-9]+ and yields the decimal value (wrap-around outside 63 bits excluded).
 func VerifHarness_C14_int_read() {
-	n := verifConc(ndInt("len", 0, verifBound(8, 19)))
+	n := verifConc(ndInt("len", 0, verifBound(8, 18)))
 	b := ndBytes("b", n)
 	// reference acceptance
 	valid := n > 0
@@ -153,7 +153,11 @@ func VerifHarness_C14_timestamp() {
 	w := FIXUTCTimestamp{Time: base, Precision: p}.Write()
 	wantLen := map[TimestampPrecision]int{Seconds: 17, Millis: 21, Micros: 24, Nanos: 27}[p]
 	verifAssert(len(w) == wantLen, "timestamp-text-length-per-precision")
+	// the receiving value may have been used before, for a timestamp of any precision
 	var r FIXUTCTimestamp
+	if ndBool("read-into-a-used-value") {
+		r = FIXUTCTimestamp{Time: base.Add(-time.Hour), Precision: TimestampPrecision(verifConc(ndInt("previous-precision", 0, 3)))}
+	}
 	verifAssert(r.Read(w) == nil && r.Precision == p, "timestamp-read-recovers-precision")
 	trunc := map[TimestampPrecision]time.Duration{Seconds: time.Second, Millis: time.Millisecond, Micros: time.Microsecond, Nanos: time.Nanosecond}[p]
 	verifAssert(r.Time.Equal(base.Truncate(trunc)), "timestamp-value-truncated-to-precision")
@@ -229,4 +233,46 @@ func VerifHarness_C14_float_write() {
 	w := FIXFloat(float64(v)).Write()
 	var f FIXFloat
 	verifAssert(f.Read(w) == nil && f.Float64() == float64(v), "float-write-read-value")
+}
+
+func init() { verifRegister("C14_int_big", VerifHarness_C14_int_big) }
+
+// C14_int_big: digit strings around the two places where 64-bit arithmetic wraps - 2^63 (19 digits) and 2^64 (20
+// digits) - with the trailing 3 (4) digits symbolic and an optional '-', bit-vector encoding: the reader either
+// reports an error or returns the number the text denotes, never a wrapped-around value.
+func VerifHarness_C14_int_big() {
+	prefix, tail := "9223372036854775", 3 // 2^63 = 9223372036854775808
+	if ndBool("around-2^64") {
+		prefix, tail = "1844674407370955", 4 // 2^64 = 18446744073709551616
+	}
+	t := ndBytes("tail", tail)
+	c14AssumeDigits(t)
+	d := append([]byte(prefix), t...)
+	neg := ndBool("negative")
+	text := d
+	if neg {
+		text = append([]byte{'-'}, d...)
+	}
+	// the number written, relative to the prefix: tailValue in 0..9999
+	tv := 0
+	for _, c := range t {
+		tv = tv*10 + (int(c) - '0')
+	}
+	var f FIXInt
+	err := f.Read(text)
+	fits := len(d) == 19 && (tv <= 807 || (neg && tv == 808))
+	if fits {
+		verifCase("fits")
+		verifAssert(err == nil, "int-in-range-accepted")
+		if err == nil {
+			want := 9223372036854775000 + tv // for tv == 808 this wraps to MinInt64, which is what -2^63 is
+			if neg {
+				want = -want
+			}
+			verifAssert(f.Int() == want, "int-value-is-the-number-written")
+		}
+	} else {
+		verifCase("out-of-range")
+		verifAssert(err != nil, "int-out-of-range-rejected-not-wrapped")
+	}
 }
